@@ -257,7 +257,7 @@ func (e *Engine) VerifyFunc(c *Contract) {
 		cp0.Requires, cp0.Ensures, cp0.Running = number(c.Requires), number(c.Ensures), number(c.Running)
 		cp0.Loops = map[int]*LoopSpec{}
 		for k, ls := range c.Loops {
-			cp0.Loops[k] = &LoopSpec{Invariants: number(ls.Invariants), ModExtra: ls.ModExtra}
+			cp0.Loops[k] = &LoopSpec{Invariants: number(ls.Invariants), ModExtra: ls.ModExtra, Unroll: ls.Unroll}
 		}
 		c = &cp0
 		cp := *c
@@ -266,7 +266,7 @@ func (e *Engine) VerifyFunc(c *Contract) {
 		cp.Running = e.activeClauses(c.Running)
 		cp.Loops = map[int]*LoopSpec{}
 		for k, ls := range c.Loops {
-			cp.Loops[k] = &LoopSpec{Invariants: e.activeClauses(ls.Invariants), ModExtra: ls.ModExtra}
+			cp.Loops[k] = &LoopSpec{Invariants: e.activeClauses(ls.Invariants), ModExtra: ls.ModExtra, Unroll: ls.Unroll}
 		}
 		c = &cp
 	}
@@ -454,9 +454,19 @@ func (fc *FnCtx) finish(st *State, rets []Value, where string, pos token.Pos) {
 			st.vars[r] = rets[i]
 		}
 	}
-	fc.applyUses(st, where)
-	fc.applyUses(st, "exit")
-	fc.e.addObl(&Obligation{Name: fmt.Sprintf("%s#cover.exit@%s", fc.name, where), Kind: "cover-exit", Func: fc.name, Hyps: st.Hyps(), Cover: true, Pos: fc.e.posStr(pos)})
+	fc.applyUsesScope(st, where, scope)
+	fc.applyUsesScope(st, "exit", scope)
+	{
+		cn := fmt.Sprintf("%s#cover.exit@%s", fc.name, where)
+		if fc.nameSeen == nil {
+			fc.nameSeen = map[string]int{}
+		}
+		fc.nameSeen[cn]++
+		if n := fc.nameSeen[cn]; n > 1 {
+			cn = fmt.Sprintf("%s~path%d", cn, n)
+		}
+		fc.e.addObl(&Obligation{Name: cn, Kind: "cover-exit", Func: fc.name, Hyps: st.Hyps(), Cover: true, Pos: fc.e.posStr(pos)})
+	}
 	for _, en := range fc.c.Ensures {
 		sc := fc.specCtx(st, scope)
 		sc.pol = 1
